@@ -18,10 +18,4 @@ theorem invC_loadEmpty (k : Kind) (s s' : St) (a : Actor) (v : Bool) (hA : InvA 
       simp only [if_true, hq, decide_true, afterEmpty] at hs
       (repeat' (split at hs)) <;> pointwise hA h a hs
 
-theorem invC_clear (k : Kind) (s s' : St) (a : Actor) (hA : InvA k s) (h : InvC k s) (hs : stepClear s a = some s') :
-    InvC k (bump s' (some a)) := by
-  unfold stepClear at hs
-  simp only [afterEmpty] at hs
-  (repeat' (split at hs)) <;> pointwise hA h a hs
-
 end ArgoVerif.Model.PopWait
